@@ -148,6 +148,10 @@ func (s *sim) stmt(st *lstmt) string {
 			return "E?"
 		}
 		arg := c.qarg
+		if c.qkind == qStmtH {
+			s.bad = true // opened through the programs of stmtprog.go only
+			return "E?"
+		}
 		if c.qkind == qStmt1 {
 			if !st.hasUsing {
 				s.bad = true // "replace value is not specified": not a cursor matter
@@ -410,8 +414,10 @@ func stmtsTokens(l []*lstmt, sep string) string {
 // readTrace: what the program logged, as model tokens
 func (h *hist) readTrace() []string {
 	v, err := h.p.Query("SELECT t, a, b FROM lp")
-	must(err)
 	out := []string{}
+	if !h.need("SELECT t, a, b FROM lp", err) {
+		return out
+	}
 	for _, r := range v.RecordSet {
 		tag, a, b := hc.EncVal(r[0][0]), hc.EncVal(r[1][0]), hc.EncVal(r[2][0])
 		switch tag {
@@ -444,7 +450,7 @@ func (h *hist) readTrace() []string {
 		}
 	}
 	_, err = h.p.Exec("DELETE FROM lp;")
-	must(err)
+	h.need("DELETE FROM lp;", err)
 	return out
 }
 
